@@ -27,7 +27,7 @@ func DecodeUint16(b []byte) (uint16, int, error) {
 	switch typ {
 	case format.TypeUint16, format.TypeUint32:
 		v, m := compactint.ReverseUint32(b[:end])
-		if m < 0 {
+		if m <= 0 {
 			return 0, 0, errors.New("decode uint16: invalid data")
 		}
 
@@ -40,7 +40,7 @@ func DecodeUint16(b []byte) (uint16, int, error) {
 
 	case format.TypeUint64:
 		v, m := compactint.ReverseUint64(b[:end])
-		if m < 0 {
+		if m <= 0 {
 			return 0, 0, errors.New("decode uint16: invalid data")
 		}
 
@@ -69,7 +69,7 @@ func DecodeUint32(b []byte) (uint32, int, error) {
 	switch typ {
 	case format.TypeUint16, format.TypeUint32:
 		v, m := compactint.ReverseUint32(b[:end])
-		if m < 0 {
+		if m <= 0 {
 			return 0, 0, errors.New("decode uint32: invalid data")
 		}
 		n += m
@@ -77,7 +77,7 @@ func DecodeUint32(b []byte) (uint32, int, error) {
 
 	case format.TypeUint64:
 		v, m := compactint.ReverseUint64(b[:end])
-		if m < 0 {
+		if m <= 0 {
 			return 0, 0, errors.New("decode uint32: invalid data")
 		}
 
@@ -106,7 +106,7 @@ func DecodeUint64(b []byte) (uint64, int, error) {
 	switch typ {
 	case format.TypeUint16, format.TypeUint32:
 		v, m := compactint.ReverseUint32(b[:end])
-		if m < 0 {
+		if m <= 0 {
 			return 0, 0, errors.New("decode uint64: invalid data")
 		}
 		n += m
@@ -114,7 +114,7 @@ func DecodeUint64(b []byte) (uint64, int, error) {
 
 	case format.TypeUint64:
 		v, m := compactint.ReverseUint64(b[:end])
-		if m < 0 {
+		if m <= 0 {
 			return 0, 0, errors.New("decode uint64: invalid data")
 		}
 		n += m
